@@ -130,7 +130,7 @@ def crit_string(case, mind=None, minn=None):
     return ';'.join(parts)
 
 
-def compute_impl(case, verbose=False):
+def compute_impl(case, verbose=False, neighbours_obj=None):
     """run Dendrogram.compute on the case; returns (dendrogram, data array)"""
     a = make_array(case)
     unit = float(2 ** case['fb'])
@@ -149,7 +149,7 @@ def compute_impl(case, verbose=False):
         kw['is_independent'] = fs if len(fs) > 1 or case.get('crit_as_list') else fs[0]
     if case.get('periodic'):
         per = list(case['periodic'])
-        kw['neighbours'] = periodic_neighbours(per if len(per) != 1 or case.get('per_as_list') else per[0])
+        kw['neighbours'] = neighbours_obj or periodic_neighbours(per if len(per) != 1 or case.get('per_as_list') else per[0])
     elif case.get('adj', 'grid') == 'diag':
         kw['neighbours'] = diag_neighbours
     with warnings.catch_warnings():
